@@ -388,6 +388,28 @@ example : serve [.mk 0 [] [.raise (.lit 404)] false] true [.mk 0 [] [.pass 1, .a
 example : serve [.mk 0 [] [.answer .errCode] false] true [.mk 0 [] [.pass 1, .answer .empty] false] wReq
     = ⟨[⟨1, 1, some 500, some 500⟩], some 500⟩ := by decide
 
+/-- **error routes select on the status of the error being handled**: the matchers the Caddyfile's
+    `handle_errors 4xx` / `handle_errors 404 500` adapt to (`expression` on
+    `{http.error.status_code}`) decide by the status of the `HandlerError` in the request context,
+    in every state the error path can produce (`status_placeholder_tracks_handler_errors`). -/
+theorem status_matchers_select_by_error_status (r : Req) (st lo hi : Nat) (codes : List Nat)
+    (hr : ∀ s, r.ctxErr = some s → s ≠ 0 → r.replStatus = some s) (he : r.ctxErr = some st) (hne : st ≠ 0) :
+    evalMatcher (.errRange lo hi) r = .ok (decide (lo ≤ st) && decide (st ≤ hi)) ∧
+    evalMatcher (.errIn codes) r = .ok (codes.contains st) := by
+  simp [evalMatcher, hr st he hne]
+
+/-- outside the error path the range form is a matcher ERROR (CEL cannot compare the unset
+    placeholder) — the request is diverted to the error routes with status 500 —, the list form
+    simply does not match. -/
+theorem status_matchers_outside_error_path (r : Req) (lo hi : Nat) (codes : List Nat) (h : r.replStatus = none) :
+    evalMatcher (.errRange lo hi) r = .err 0 ∧ evalMatcher (.errIn codes) r = .ok false := by
+  simp [evalMatcher, h]
+
+example : serve [.mk 0 [] [.raise (.lit 404)] false] true
+      [.mk 0 [[.errRange 500 599]] [.pass 1] true, .mk 0 [[.errIn [404, 410]]] [.pass 2, .answer .errCode] true] wReq
+    = ⟨[⟨2, 1, some 404, some 404⟩], some 404⟩ := by decide
+example : serve [.mk 0 [[.errRange 400 499]] [.pass 1] false] false [] wReq = ⟨[], some 500⟩ := by decide
+
 /-! ## named routes and `invoke` -/
 
 /-- **a named route follows the same rules**: invoking a defined name evaluates that route by the
